@@ -179,6 +179,25 @@ class Iter:
         return STOP
 
 
+class LazyGen(Iter):
+    """A generator expression over a stateful iterator (a token stream, iter(x)): its items are produced on demand, so that a
+    consumer that stops early (next(), any(), a for loop with break) leaves the rest in the underlying iterator."""
+    def __init__(self, node, source, closure, scope):
+        Iter.__init__(self, [])
+        self.node, self.source, self.closure, self.scope = node, source, closure, scope
+
+    def __repr__(self):
+        return 'LazyGen(line %s over %r)' % (getattr(self.node, 'lineno', '?'), self.source)
+
+    def __deepcopy__(self, memo):
+        g = LazyGen(self.node, copy.deepcopy(self.source, memo), copy.deepcopy(self.closure, memo), self.scope)
+        memo[id(self)] = g
+        return g
+
+    def take(self):
+        raise AnalysisError('a lazy generator expression is consumed by code that does not know it (line %s)' % getattr(self.node, 'lineno', '?'))
+
+
 class Stream(Iter):
     """A token stream: an iterator with push-back (tokens.push(tok) makes tok the next item)."""
     def __repr__(self):
@@ -283,6 +302,32 @@ def _freeze(v, _depth=0, _seen=None):
 
 import os as _os
 _TRACE_EXC = bool(_os.environ.get('VERIF_TRACE_EXC'))
+class _FuseExit(Exception):
+    """The body of a for loop over a generator left the loop (break / return / raise) while the generator was suspended."""
+    def __init__(self, kind, state, value=None):
+        Exception.__init__(self, kind)
+        self.kind, self.state, self.value = kind, state, value
+
+
+class _FuseFail(Exception):
+    """The loop body could not be interleaved with the generator (several outcomes, or the heap was copied under way)."""
+
+
+def _shallow_sig(v, _depth=0):
+    """Signature of a container value: its items by identity (objects) or value; None for values that are not containers."""
+    if isinstance(v, (list, set, dict)) and not isinstance(v, (ListObj,)):
+        items = v.items() if isinstance(v, dict) else v
+        try:
+            return (type(v).__name__,) + tuple((id(x) if isinstance(x, (Obj, TextObj, list, dict)) else repr(x)) for x in items)
+        except Exception:
+            return None
+    if isinstance(v, tuple) and _depth < 2:
+        sub = [_shallow_sig(x, _depth + 1) for x in v]
+        if any(x is not None for x in sub):
+            return ('tuple',) + tuple(sub)
+    return None
+
+
 _FRAME_LOCAL = re.compile(r'__(iter|list|exitstacks)@\d+$|__handling$')
 
 
@@ -481,12 +526,16 @@ class Interp:
         if isinstance(n.value, ast.YieldFrom) and isinstance(n.value.value, ast.Call) and self.generators \
            and any(k.startswith('__yields@') for k in s.env):
             # `yield from helper(...)`: the helper's yields are the yields of this generator, in place
+            was_gen = self._is_generator_call(n.value.value, s)
             self._share_yields = True
             try:
                 inl = self.inline(n.value.value, s)
             finally:
                 self._share_yields = False
             if inl is not None:
+                for s2, v in inl:
+                    if v is not None and '__exc' not in s2.env and not was_gen:
+                        self._yield_items(v, s2, n.value)        # not a generator: the helper returned something to iterate over
                 return {'fall': [(s2, None) for s2, v in inl]}
         for s2, v in self.expr(n.value, s):
             if isinstance(n.value, ast.Call):
@@ -854,11 +903,16 @@ class Interp:
         return self._loop(n, s, None)
 
     def st_For(self, n, s):
+        fused = self._try_fuse(n, s)
+        if fused is not None:
+            return fused
         outs = []
         res = {}
         for s2, it in self.expr(n.iter, s):
             it = self.materialize(it, s2)
             if isinstance(it, Iter):
+                if getattr(it, 'lazy_mismatch', None):
+                    self.imprecise.append(it.lazy_mismatch)
                 s2.env['__iter@%d' % n.lineno] = it
             elif isinstance(it, list) and is_concrete(it) and len(it) <= 64 and (self.heap or any(v is it for v in s2.env.values() if isinstance(v, list))):
                 # a list that the body can reach: iterate over the live object (removals during the loop skip items, as in Python)
@@ -905,7 +959,12 @@ class Interp:
                         else:
                             exits.append(st)
                         continue
-                    if isinstance(iterable, Iter):
+                    if isinstance(iterable, LazyGen):
+                        item = self.lazy_take(st.env['__iter@%d' % n.lineno], st)
+                        if item is None:
+                            self.imprecise.append('the items of a generator expression are not determined (line %s)' % n.lineno)
+                            item = STOP
+                    elif isinstance(iterable, Iter):
                         item = st.env['__iter@%d' % n.lineno].take()
                     else:
                         item = self.h.iter_item(self, n, k, st)
@@ -1316,6 +1375,7 @@ class Interp:
             return None
         is_gen = any(isinstance(x, (ast.Yield, ast.YieldFrom)) for x in M.walk_no_nested(node))
         share_yields, self._share_yields = getattr(self, '_share_yields', False), False
+        fuse_req, self._fuse_req = getattr(self, '_fuse_req', None), None
         if (node in self._inline_stack and receiver is None and not self.heap) or self._inline_stack.count(node) >= 4 \
            or (is_gen and not self.generators):
             if self.heap:
@@ -1376,6 +1436,9 @@ class Interp:
             is_gen = False              # its yields go to the enclosing generator's list (ev_Yield picks the innermost list)
         if is_gen:
             cs.env[ykey] = []           # a generator function: interpreted eagerly, its call yields an iterator over the values
+            cs.env['__ysnap@%d' % len(self._inline_stack)] = []
+            if fuse_req is not None:
+                cs.env['__fuse@%d' % len(self._inline_stack)] = fuse_req      # ... unless it feeds a for loop: then each yield runs the loop body
         ckey = '__caller@%d' % len(self._inline_stack)
         cs.env[ckey] = s.env          # travels (and is forked) with the callee state: aliasing with caller locals is kept
         if receiver is not None:
@@ -1430,7 +1493,19 @@ class Interp:
                     continue
                 if is_gen:
                     ys = ns.env.pop(ykey, None)
-                    results.append((ns, Iter(ys) if isinstance(ys, list) else TOP))
+                    snaps = ns.env.pop('__ysnap@%d' % len(self._inline_stack), None)
+                    ns.env.pop('__fuse@%d' % len(self._inline_stack), None)
+                    mismatch = None
+                    if isinstance(ys, list) and isinstance(snaps, list) and len(snaps) == len(ys):
+                        for v_, sig in zip(ys, snaps):
+                            if sig is not None and _shallow_sig(v_) != sig:
+                                mismatch = ('the generator %s changes a container after yielding it: a consumer that takes the items one by one sees '
+                                            'another state than the eager interpretation (line %s)' % (fname, getattr(call, 'lineno', '?')))
+                                break
+                    gi = Iter(ys) if isinstance(ys, list) else TOP
+                    if mismatch and isinstance(gi, Iter):
+                        gi.lazy_mismatch = mismatch         # reported when the items are taken one at a time (for / next)
+                    results.append((ns, gi))
                     continue
                 results.append((ns, v if kind == 'return' else None))
         for st, v in outs.get('raise', []):
@@ -2260,16 +2335,46 @@ class Interp:
             r = self.apply_value(fval, list(args), kwargs, s, n.lineno)
             if r is not None:
                 return r
+            self.imprecise.append('the call of the callable value %s could not be interpreted: its effect is lost (line %s)' % (_text(n.func)[:40], n.lineno))
             return (TOP,)
         if isinstance(fval, (Partial, OpCall)):
+            self.imprecise.append('the call of the callable value %s could not be interpreted: its effect is lost (line %s)' % (_text(n.func)[:40], n.lineno))
             return (TOP,)
         if isinstance(n.func, ast.Name) and isinstance(s.env.get(n.func.id), (Partial, OpCall)):
             r = self.apply_value(s.env[n.func.id], list(args), kwargs, s, n.lineno)
             return r if r is not None else (TOP,)
         return None
 
+    def _call_self_method(self, name, args, kwargs, s, lineno):
+        """self.<name>(args): one of our own methods taken as a value and called later.  (result,) or None."""
+        vals = {}
+        for i, a in enumerate(args):
+            vals['__x%d' % i] = a
+        for k, v in kwargs.items():
+            vals['__k_' + k] = v
+        names = self._with_temps(vals, s)
+        call = ast.Call(func=ast.Attribute(value=ast.Name(id='self', ctx=ast.Load()), attr=name, ctx=ast.Load()),
+                        args=[ast.Name(id=names['__x%d' % i], ctx=ast.Load()) for i in range(len(args))],
+                        keywords=[ast.keyword(arg=k, value=ast.Name(id=names['__k_' + k], ctx=ast.Load())) for k in kwargs])
+        for x in ast.walk(call):
+            x.lineno, x.col_offset, x.end_lineno, x.end_col_offset = lineno, 0, lineno, 0
+        try:
+            return self._inline_single(call, s)
+        finally:
+            for nm_ in names.values():
+                s.env.pop(nm_, None)
+
     def apply_value(self, fval, args, kwargs, s, lineno=0):
         """Call a callable *value* with evaluated arguments.  Returns (result,) or None when the call cannot be decided."""
+        if isinstance(fval, Sym) and fval.label.startswith('method:') and fval.label[7:].isidentifier() and self.inline_depth > 0:
+            return self._call_self_method(fval.label[7:], list(args), dict(kwargs), s, lineno)
+        if isinstance(fval, M.External):
+            import builtins as _b
+            if '.' not in fval.name and callable(getattr(_b, fval.name, None)) and not isinstance(getattr(_b, fval.name), type):
+                fval = getattr(_b, fval.name)             # a builtin function taken as a value
+            else:
+                r = self._call_via_temp(fval, list(args), kwargs, s, lineno)
+                return None if r[0] is TOP else r
         if isinstance(fval, Partial):
             kw = dict(fval.kwargs)
             kw.update(kwargs)
@@ -2339,13 +2444,24 @@ class Interp:
                 return None if r is None else (r,)
             if getattr(fval, '__name__', '') in ('getitem',) and len(args) == 2:
                 return self._getitem_value(args[0], args[1], s, lineno)
-            if getattr(fval, '__name__', '') in ('setitem',) and len(args) == 3:
-                return self._call_via_temp_stmt('__a[__b] = __c', {'__a': args[0], '__b': args[1], '__c': args[2]}, s, lineno)
-            if getattr(fval, '__name__', '') in ('getattr',) and len(args) in (2, 3) and isinstance(args[1], str):
-                r = self._getattr_value(args[0], args[1], s, lineno)
-                return r
-            if getattr(fval, '__name__', '') == 'setattr' and len(args) == 3 and isinstance(args[1], str) and args[1].isidentifier():
-                return self._call_via_temp_stmt('__a.%s = __c' % args[1], {'__a': args[0], '__c': args[2]}, s, lineno)
+            import builtins as _b
+            nm = getattr(fval, '__name__', '')
+            if getattr(_b, nm, None) is fval and nm not in s.env:
+                # a builtin function held as a value (partial(setattr, obj, name, v), map(len, ...)): the call of that name
+                names = self._with_temps({'__x%d' % i: a for i, a in enumerate(args)}, s)
+                knames = self._with_temps({'__k_' + k: v for k, v in kwargs.items()}, s)
+                call = ast.Call(func=ast.Name(id=nm, ctx=ast.Load()), args=[ast.Name(id=names['__x%d' % i], ctx=ast.Load()) for i in range(len(args))],
+                                keywords=[ast.keyword(arg=k, value=ast.Name(id=knames['__k_' + k], ctx=ast.Load())) for k in kwargs])
+                for x in ast.walk(call):
+                    x.lineno, x.col_offset, x.end_lineno, x.end_col_offset = lineno, 0, lineno, 0
+                try:
+                    v = self.ev(call, s)
+                finally:
+                    for n_ in list(names.values()) + list(knames.values()):
+                        s.env.pop(n_, None)
+                if v is TOP and nm in ('setattr', 'delattr', 'setitem'):
+                    return None
+                return (v,)
             return None
         return None
 
@@ -2456,8 +2572,15 @@ class Interp:
                 return True
             g = n.generators[i]
             it = self.materialize(self.ev(g.iter, s), s)
-            if isinstance(it, Iter):
+            if isinstance(it, LazyGen):
+                it = self.lazy_drain(it, s)
+                if it is None:
+                    return False
+            if isinstance(it, Iter) and not isinstance(it, CountIter):
+                src_iter = it
                 it = it.items[it.pos:]
+                if i == 0:
+                    src_iter.pos = len(src_iter.items)         # the comprehension consumes the iterator
             if isinstance(it, dict):
                 it = list(it.keys())
             if isinstance(it, range):
@@ -2505,8 +2628,66 @@ class Interp:
         return TOP
 
     def ev_GeneratorExp(self, n, s):
+        if self.heap and len(n.generators) == 1 and not n.generators[0].is_async:
+            g = n.generators[0]
+            src = self.ev(g.iter, s) if isinstance(g.iter, (ast.Name, ast.Attribute)) else None
+            if isinstance(src, Iter) and not isinstance(src, LazyGen) and not getattr(src, 'lazy_mismatch', None):
+                # over a stateful iterator: lazy (the first iterable is evaluated now, as in Python)
+                targets = {x.id for x in ast.walk(g.target) if isinstance(x, ast.Name)}
+                free = {x.id for x in ast.walk(n) if isinstance(x, ast.Name) and isinstance(x.ctx, ast.Load)} - targets
+                closure = {nm: s.env[nm] for nm in free if nm in s.env}
+                return LazyGen(n, src, closure, self.scope)
         r = self.ev_ListComp(n, s)
         return Iter(r) if isinstance(r, list) else TOP
+
+    def lazy_take(self, gen, s):
+        """Next item of a lazy generator expression: STOP, the item, or None when a condition is not determined."""
+        n = gen.node
+        g = n.generators[0]
+        names = {x.id for x in ast.walk(g.target) if isinstance(x, ast.Name)} | set(gen.closure)
+        saved = {nm: s.env.get(nm, _MISSING) for nm in names}
+        saved_scope, saved_cache = self.scope, getattr(self, '_locals_cache', None)
+        self.scope, self._locals_cache = gen.scope, None
+        try:
+            s.env.update(gen.closure)
+            while True:
+                item = gen.source.take()
+                if item is STOP:
+                    return STOP
+                self.assign(g.target, item, s, n, quiet=True)
+                ok = True
+                for c in g.ifs:
+                    t = self.truth_in(self.ev(c, s), s)
+                    if t is None:
+                        self.unknown_branches.append('%s (line %s)' % (_text(c)[:80], n.lineno))
+                        return None
+                    if not t:
+                        ok = False
+                        break
+                if ok:
+                    return self.ev(n.elt, s)
+        finally:
+            self.scope, self._locals_cache = saved_scope, saved_cache
+            walrus = {x.target.id for x in ast.walk(n) if isinstance(x, ast.NamedExpr) and isinstance(x.target, ast.Name)}
+            for nm, v in saved.items():
+                if nm in walrus:
+                    continue               # (an assignment expression binds in the enclosing scope)
+                if v is _MISSING:
+                    s.env.pop(nm, None)
+                else:
+                    s.env[nm] = v
+
+    def lazy_drain(self, gen, s):
+        """All remaining items of a lazy generator expression as a plain iterator (None when not determined)."""
+        out = []
+        for _ in range(4096):
+            item = self.lazy_take(gen, s)
+            if item is STOP:
+                return Iter(out)
+            if item is None:
+                return None
+            out.append(item)
+        return None
 
     def ev_DictComp(self, n, s):
         r = self._comprehend(n, s, lambda st: (self.ev(n.key, st), self.ev(n.value, st)))
@@ -2523,7 +2704,16 @@ class Interp:
         v = self.ev(n.value, s) if n.value is not None else None
         keys = [k for k in s.env if k.startswith('__yields@')]
         if keys:
-            s.env[max(keys, key=lambda k: int(k.split('@')[1]))].append(v)
+            kmax = max(keys, key=lambda k: int(k.split('@')[1]))
+            d = int(kmax.split('@')[1])
+            tok = s.env.get('__fuse@%d' % d)
+            if tok is not None:
+                self._fused_yield(v, s, d, tok)
+                return None
+            s.env[kmax].append(v)
+            snaps = s.env.get('__ysnap@%d' % d)
+            if isinstance(snaps, list):
+                snaps.append(_shallow_sig(v))
         oy = getattr(self.h, 'on_yield', None)
         if oy is not None and oy(self, v, s) is STOP:
             s.env['__exc'] = 'GeneratorExit'       # the consumer stops asking: the generator is closed here
@@ -2531,9 +2721,127 @@ class Interp:
         return TOP
 
     def ev_YieldFrom(self, n, s):
-        self.ev(n.value, s)
+        v = self.ev(n.value, s)
+        self._yield_items(v, s, n)
+        return TOP
+
+    def _yield_items(self, v, s, n):
+        keys = [k for k in s.env if k.startswith('__yields@')]
+        if keys and self.generators:
+            v = self.materialize(v, s)
+            seq = self._seq_of(v)
+            if seq is None:
+                self.imprecise.append('yield from %s: the items are not determined (line %s)' % (_text(n.value)[:50], n.lineno))
+            else:
+                kmax = max(keys, key=lambda k: int(k.split('@')[1]))
+                d = int(kmax.split('@')[1])
+                tok = s.env.get('__fuse@%d' % d)
+                for item in seq:
+                    if tok is not None:
+                        self._fused_yield(item, s, d, tok)
+                    else:
+                        s.env[kmax].append(item)
+                        snaps = s.env.get('__ysnap@%d' % d)
+                        if isinstance(snaps, list):
+                            snaps.append(_shallow_sig(item))
         self.emit(s, ('yieldfrom', _text(n.value), n.lineno))
         return TOP
+
+    def _fused_yield(self, v, s, d, tok):
+        """A yield of a generator that feeds a for loop: the loop body runs now, on the consumer's variables, then the generator goes on."""
+        for_node, cscope, cdepth, clocals = self._fuse_table[tok]
+        ckey, gkey = '__caller@%d' % d, '__gen@%d' % d
+        cenv, genv = s.env.get(ckey), s.env
+        if not isinstance(cenv, dict):
+            raise _FuseFail()
+        cenv[gkey] = genv
+        cst = State(cenv, s.trace, dict(s.assumed))
+        cst.flags = s.flags
+        saved = (self.scope, self._inline_stack, getattr(self, '_locals_cache', None))
+        self.scope, self._inline_stack, self._locals_cache = cscope, self._inline_stack[:cdepth], clocals
+        try:
+            self.assign(for_node.target, v, cst, for_node, quiet=True)
+            res = self.block(for_node.body, [cst])
+        finally:
+            self.scope, self._inline_stack, self._locals_cache = saved
+        flat = [(kind, st, val) for kind, lst in res.items() for st, val in lst]
+        if len(flat) != 1:
+            cenv.pop(gkey, None)
+            raise _FuseFail()
+        kind, st2, val = flat[0]
+        g2 = st2.env.pop(gkey, None)
+        if g2 is not genv:
+            raise _FuseFail()                 # the state was copied under way: the generator's objects are no longer the consumer's
+        if kind in ('fall', 'continue'):
+            genv[ckey] = st2.env
+            for k2, e2 in list(genv.items()):
+                if k2.startswith('__caller@') and k2 != ckey and isinstance(e2, dict) and ckey in e2:
+                    e2[ckey] = st2.env
+            s.trace, s.flags, s.assumed = st2.trace, st2.flags, st2.assumed
+            return
+        raise _FuseExit(kind, st2, val)
+
+    def _is_generator_call(self, call, s):
+        saved_recv, saved_forced = getattr(self, '_receiver', None), getattr(self, '_force_callee', None)
+        try:
+            probe = self._callee(self._norm_call(call, s), s)
+        except AnalysisError:
+            probe = None
+        self._receiver, self._force_callee = saved_recv, saved_forced
+        return probe is not None and isinstance(probe[0], (ast.FunctionDef, ast.AsyncFunctionDef)) \
+            and any(isinstance(x, (ast.Yield, ast.YieldFrom)) for x in M.walk_no_nested(probe[0]))
+
+    def _try_fuse(self, n, s):
+        """`for x in self.gen(...): body` over a generator function of the analysed code, interpreted lazily: every yield runs the
+        loop body before the generator continues (the order of effects of the two is the order Python gives them).  Outcomes of the
+        for statement, or None when this does not apply (then the generator is interpreted eagerly)."""
+        if not (self.generators and self.heap and self.precise_exc and isinstance(n.iter, ast.Call) and self.inline_depth > 0
+                and len(self._inline_stack) < self.inline_depth and self.model is not None):
+            return None
+        call = self._norm_call(n.iter, s)
+        if not self._is_generator_call(call, s):
+            return None
+        table = self.__dict__.setdefault('_fuse_table', {})
+        tok = len(table) + 1
+        table[tok] = (n, self.scope, len(self._inline_stack), getattr(self, '_locals_cache', None))
+
+        def attempt(state):
+            self._fuse_req = tok
+            try:
+                return self.inline(call, state)
+            finally:
+                self._fuse_req = None
+        notes = (len(self.imprecise), len(self.unknown_branches), len(IMPRECISION))
+        try:
+            ok = attempt(s.fork()) is not None
+        except _FuseExit:
+            ok = True
+        except (_FuseFail, AnalysisError):
+            ok = False
+        # the dry run's notes are not the real run's
+        del self.imprecise[notes[0]:], self.unknown_branches[notes[1]:], IMPRECISION[notes[2]:]
+        if not ok:
+            return None
+        try:
+            r = attempt(s)
+        except _FuseExit as e:
+            if e.kind == 'break':
+                return {'fall': [(e.state, None)]}
+            return {e.kind: [(e.state, e.value)]}
+        except _FuseFail:
+            raise AnalysisError('the loop over the generator %s is not deterministic' % _text(call.func))
+        if r is None:
+            raise AnalysisError('the loop over the generator %s is not deterministic' % _text(call.func))
+        exits = [st for st, _v in r]
+        pend = [st for st in exits if '__exc' in st.env]
+        done = [st for st in exits if '__exc' not in st.env]
+        outs = {'fall': [(st, None) for st in pend]}
+        if n.orelse and done:
+            for kind, lst in self.block(n.orelse, done).items():
+                outs.setdefault(kind, []).extend(lst)
+        else:
+            outs['fall'].extend((st, None) for st in done)
+        return outs
 
     def ev_Await(self, n, s):
         return self.ev(n.value, s)
@@ -2760,6 +3068,45 @@ class Interp:
                 v = self.ev(k.value, s)
                 if k.arg is not None:
                     kwargs[k.arg] = v
+        if any(isinstance(a, LazyGen) for a in args):
+            if fname in ('next', 'any', 'all') and fname not in s.env and isinstance(args[0], LazyGen):
+                gen = args[0]
+                if fname == 'next':
+                    item = self.lazy_take(gen, s)
+                    if item is None:
+                        return TOP
+                    if item is not STOP:
+                        return item
+                    if len(args) > 1:
+                        return args[1]
+                    if self.precise_exc:
+                        s.env['__exc'] = 'StopIteration'
+                    return TOP
+                while True:
+                    item = self.lazy_take(gen, s)
+                    if item is STOP:
+                        return fname == 'all'
+                    t = None if item is None else self.truth_in(item, s)
+                    if t is None:
+                        self.unknown_branches.append('%s(...) over %s (line %s)' % (fname, _text(n.args[0])[:60], n.lineno))
+                        return TOP
+                    if t and fname == 'any':
+                        return True
+                    if not t and fname == 'all':
+                        return False
+            elif fname == 'iter' and len(args) == 1:
+                return args[0]
+            else:
+                # any other consumer takes everything
+                conv = []
+                for a in args:
+                    if isinstance(a, LazyGen):
+                        a = self.lazy_drain(a, s)
+                        if a is None:
+                            self.imprecise.append('the items of the generator expression handed to %s are not determined (line %s)' % (fname, n.lineno))
+                            a = TOP
+                    conv.append(a)
+                args = conv
         self.ncalls = getattr(self, 'ncalls', 0) + 1
         r = self.h.call(self, n, fname, args, kwargs, s)
         self.emit(s, ('call', fname, _evargs(args, n.args), n.lineno))
@@ -2868,12 +3215,16 @@ class Interp:
             if isinstance(args[0], Iter):
                 return args[0]
         if fname == 'next' and 'next' not in s.env and args and isinstance(args[0], Iter):
+            if getattr(args[0], 'lazy_mismatch', None):
+                self.imprecise.append(args[0].lazy_mismatch)
             item = args[0].take()
             if item is not STOP:
                 return item
             if len(args) > 1:
                 return args[1]
             s.flags = s.flags + (('stop-iteration', n.lineno),)
+            if self.precise_exc and self.heap:
+                s.env['__exc'] = 'StopIteration'
             return TOP
         if fname.endswith('stringletters') and not args:
             return M.STRINGLETTERS
@@ -2885,12 +3236,15 @@ class Interp:
         r_ = self._functional_call(n, fname, fval, args, kwargs, s)
         if r_ is not None:
             return r_[0]
-        if isinstance(fval, M.External) and fval.name in ('itertools.takewhile', 'takewhile', 'itertools.dropwhile', 'dropwhile', 'filter', 'map') and len(args) == 2 \
+        if isinstance(fval, M.External) and fval.name in ('itertools.takewhile', 'takewhile', 'itertools.dropwhile', 'dropwhile', 'filter', 'map',
+                                                          'itertools.filterfalse', 'filterfalse') and len(args) == 2 \
            or (isinstance(n.func, ast.Name) and n.func.id in ('filter', 'map') and n.func.id not in s.env and len(args) == 2):
             kind = (fval.name if isinstance(fval, M.External) else n.func.id).split('.')[-1]
             seq = args[1]
             if isinstance(seq, Iter) and not isinstance(seq, CountIter):
                 seq = seq.items[seq.pos:]
+            elif isinstance(seq, (dict, set, frozenset, range)) or (isinstance(seq, str) and not isinstance(seq, M._StringLetters)):
+                seq = self._seq_of(seq)
             if isinstance(seq, (list, tuple)) and len(seq) <= 64:
                 out, ok, dropping = [], True, True
                 for item in seq:
@@ -2913,6 +3267,9 @@ class Interp:
                             continue
                         dropping = False
                         out.append(item)
+                    elif kind == 'filterfalse':
+                        if not t:
+                            out.append(item)
                     elif t:
                         out.append(item)
                 if ok:
